@@ -11,6 +11,8 @@
         op <j> res=<0|1|2> size=<n> lg=<n> dropped=<k,k,..> found=<k,k,..>      (res 2 = out of fuel, 3 = capacity cap)
         final <k k k ...>                   elements in table/bucket/probe-set order (= clear_and_dispose order)
         endcase
+   c17_exe runs           same format for the StripedSet model (LV.Model.StripedSeq):
+        cfg <log2 initial capacity> <policy kind 0 load factor / 1 single bucket threshold> <n> <lgcap>, one hash line
    c17_exe search <arity> <psize> <thr> <ord> <lg0> <nkeys> <hvals> <fuel> [<max>]
       exhaustive: keys 0..nkeys-1 inserted in this order, every assignment of hash values 0..hvals-1 to
       (table, key); prints every assignment for which an element is dropped by a resize:
@@ -42,7 +44,20 @@ let print_case id cfg hashes ops =
   Printf.printf "final %s\n" (join " " (List.map int_of_n (elems !last)));
   Printf.printf "endcase\n"
 
-let run () =
+(* striped: cfg <log2 initial capacity> <policy kind> <policy n> <lgcap>; one hash line *)
+let print_striped id cfg hashes ops =
+  Printf.printf "case %s\n" id;
+  let ht = match hashes with t :: _ -> List.map n_of_int t | [] -> [] in
+  let outs = s_run_case (List.map nat_of_int cfg) ht (pairs ops) in
+  let last = ref [] in
+  List.iteri (fun j ((((code, sz), lg), found), el) ->
+      Printf.printf "op %d res=%d size=%d lg=%d dropped= found=%s\n" j (int_of_nat code) (int_of_nat sz) (int_of_nat lg)
+        (join "," (List.map int_of_n found));
+      last := el) outs;
+  Printf.printf "final %s\n" (join " " (List.map int_of_n !last));
+  Printf.printf "endcase\n"
+
+let run striped =
   let id = ref "" and cfg = ref [] and hashes = ref [] and ops = ref [] in
   (try
      while true do
@@ -52,7 +67,7 @@ let run () =
        else if String.length line >= 4 && String.sub line 0 4 = "cfg " then cfg := ints_of_line (String.sub line 4 (String.length line - 4))
        else if String.length line >= 5 && String.sub line 0 5 = "hash " then hashes := !hashes @ [ints_of_line (String.sub line 5 (String.length line - 5))]
        else if String.length line >= 3 && String.sub line 0 3 = "ops" then ops := ints_of_line (String.sub line 3 (String.length line - 3))
-       else if line = "end" then print_case !id !cfg !hashes !ops
+       else if line = "end" then (if striped then print_striped else print_case) !id !cfg !hashes !ops
      done
    with End_of_file -> ())
 
@@ -131,6 +146,7 @@ let search2 args =
 let () =
   match Array.to_list Sys.argv with
   | _ :: "search2" :: args -> search2 args
-  | _ :: "run" :: _ -> run ()
+  | _ :: "run" :: _ -> run false
+  | _ :: "runs" :: _ -> run true
   | _ :: "search" :: args -> search args
   | _ -> prerr_endline "usage: c17_exe run | search ..."
